@@ -249,6 +249,19 @@ for _y in (1, 2, 3):
             _make(_y, _mp, _c)
 
 
+def _make_prefixed():
+    """A type whose name has the name of type 1 (unlimited, pickle cache) as a prefix: T1pNc1x next to T1pNc1."""
+    name = 'T1pNc1x'
+    ns = {'__annotations__': {'tid': int, 'a': Any, 'b': Any, 'beh': str},
+          'a': None, 'b': (), 'beh': 'ok', 'run': run_body, '__module__': __name__, '__qualname__': name}
+    cls = labtech.task(cache=RecCache(), max_parallel=None)(type(name, (), ns))
+    globals()[name] = cls
+    TYPES[('1x', None, 1)] = cls
+
+
+_make_prefixed()
+
+
 # ---- "twins": tasks of one type without a tid field, told apart only by the value (or the type of the value) of
 # their single parameter.  1, 1.0 and True are equal in Python but are different parameter values; the two dicts
 # differ only in one value.  The spec-level task id is derived from the parameter.
